@@ -66,6 +66,8 @@ package creds
 //@   props C10 C17
 //@   modifies fresh, ghost urlbool
 //@   at call creds.NewCredentialHelpers:1 assert @C17 len(arg0__) >= 1 && dyntype(arg0__[len(arg0__) - 1], "*github.com/git-lfs/git-lfs/v3/creds.commandCredentialHelper") && ptr_as(arg0__[len(arg0__) - 1], "github.com/git-lfs/git-lfs/v3/creds.commandCredentialHelper").protectProtocol == urlbool("protectProtocol")
+//@   at call (*config.URLConfig).Bool:* assert @C17 arg1__ == "credential" && arg2__ == scat(scat(scat(u.Scheme, "://"), u.Host), u.Path)
+//@   at call (*config.URLConfig).Get:* assert @C17 arg1__ == "credential" && arg2__ == scat(scat(scat(u.Scheme, "://"), u.Host), u.Path)
 //@   requires @inv ctxt != nil && u != nil && ctxt.urlConfig != nil && ctxt.commandCredHelper != nil
 //@   ensures result.Url == u && has(result.Input, "host") && len(result.Input["host"]) == 1 && result.Input["host"][0] == old(u.Host)
 //@   ensures has(result.Input, "protocol") && len(result.Input["protocol"]) == 1 && result.Input["protocol"][0] == old(u.Scheme)
@@ -74,10 +76,14 @@ package creds
 //@   props C10 C17
 //@   modifies ghost urlbool[key]
 //@   ensures result == urlbool(key)
+//@   at call (*config.URLConfig).Get:1 assert arg0__ == c && arg1__ == prefix && arg2__ == rawurl && arg3__ == key
+// Checked although the contract is assumed: the URL-specific lookup is made
+// for the URL, the section and the key that were asked for (lower-cased).
 //@ func (*github.com/git-lfs/git-lfs/v3/config.URLConfig).Get
 //@   assumed
-//@   props C10
+//@   props C10 C17
 //@   noeffect
+//@   at call (*config.URLConfig).getAll:1 assert arg0__ == c && arg1__ == str_lower(old(prefix)) && arg2__ == rawurl && arg3__ == str_lower(old(key))
 //@ func NewCredentialHelpers
 //@   assumed
 //@   props C10
